@@ -51,7 +51,8 @@ THEOREMS = ['authenticated_only_after_accept', 'refines_spec_server', 'authentic
             'mechanism_consulted_iff_table_asks', 'real_mechanisms_never_raise', 'closes_exactly_when',
             'no_line_processed_after_close', 'conforming_client_accepted', 'conforming_client_accepted_from',
             'wrong_cookie_never_accepted', 'cookie_accept_tied_to_challenge', 'line_partition_independent',
-            'bus_authenticated_only_after_accept', 'bus_refines_spec', 'bus_connections_independent']
+            'bus_authenticated_only_after_accept', 'bus_refines_spec', 'bus_connections_independent',
+            'bus_external_own_credentials']
 TRUSTED_BASE = [
     'Python semantics mirrored by hand in Auth/ServerBytes.lean and validated only by the stream bytes-helpers: '
     'bytes.split(), bytes.strip(), bytes.split(b" ", 1), bytes.split(b"\\r\\n"), binascii.hexlify/unhexlify, '
@@ -1685,7 +1686,12 @@ def judge_interleaved(ctx, rng):
             'frac': rng.random() < 0.5}
     cross = rng.random() < 0.5
     order = rng.choice(['AB', 'BA'])
-    case = {'kind': 'interleaved', 'users': [ua, ub], 'cross': cross, 'order': order, 'env': spec}
+    judge_interleaved_case(ctx, {'kind': 'interleaved', 'users': [ua, ub], 'cross': cross, 'order': order, 'env': spec})
+
+
+def judge_interleaved_case(ctx, case):
+    """One interleaved pair; the case holds everything that determines it (so a replay file re-runs it)."""
+    (ua, ub), cross, order, spec = case['users'], case['cross'], case['order'], case['env']
     with RealEnv(spec) as env:
         sess = {}
         for name in 'AB':
@@ -2499,7 +2505,7 @@ def run_case(ctx, case, pending, stream_name='corpus'):
     elif case.get('kind') == 'overlapping':
         judge_overlapping(ctx, case['schedule'], case['users'], case.get('dir', 'absent'), case.get('frac', False))
     elif case.get('kind') == 'interleaved':
-        ctx.note('interleaved cases are generated from the seed; re-run the check with the same VERIF_SEED')
+        judge_interleaved_case(ctx, case)
     elif case.get('kind') == 'real':
         judge_real(ctx, case, pending)
     else:
